@@ -16,7 +16,8 @@
 (***************************************************************************)
 EXTENDS Props, AirInterp, TLC, Json, IOUtils
 
-CONSTANTS MaxRuns, MaxDeliveries, MaxBogus
+CONSTANTS MaxRuns, MaxDeliveries, MaxBogus,
+          CheckIds        \* the property ids checked on every transition
 
 Hist0 == JsonDeserialize(IOEnv.SCRIPT)       \* {script, init, peers, ...}: one catalogue entry
 Script == Hist0.script
@@ -73,10 +74,10 @@ Event(p, kind, cur, resSeq) ==
 
 \* the property ids violated by step e taken from state s to state t (model-level reading of Props)
 Violations(s, t, e) ==
-    {id \in {"C02", "C04", "C05", "C06", "C07", "C09", "C10", "C19"} :
+    {id \in CheckIds \cap {"C02", "C04", "C05", "C06", "C07", "C09", "C10", "C19"} :
         ~(CASE id = "C02" -> C02(s, e)
             [] id = "C04" -> C04(s, e)
-            [] id = "C05" -> C05(s, t, e)
+            [] id = "C05" -> C05(s, t, e) /\ C05answered(s, e)
             [] id = "C06" -> C06(s, t, e)
             [] id = "C07" -> C07(s, e)
             [] id = "C09" -> C09(s, e)
@@ -126,7 +127,7 @@ Next == st.runs < MaxRuns /\ (Start \/ Deliver \/ HostReturn \/ HostReturnBogus)
 Spec == Init /\ [][Next]_vars
 
 \* ---------------------------------------------------------------------------
-NoViolation == viol = {}
+NoViolation == viol = {} \/ (PrintT(<<"MODELVIOL", viol, ToJson(hist)>>) /\ FALSE)
 
 \* nothing left to do except duplicates: every wanted message delivered once, nothing pending
 Done == Quiescent(st) \/ st.runs >= MaxRuns
